@@ -1,1 +1,2 @@
 pub mod panic;
+pub mod curve;
